@@ -4,15 +4,15 @@ import NanoVerif.Model.Constraint
   (core Lean only; generic over the scalar type: run at `Float` in `driver_c05`, proved over an ordered field).
 
   Mirrors (line numbers of /repo at the time of writing):
-    src/function/penalty.cpp:31-50     ::penalty_vgrad(function, x, gx, op)                         -> `penaltyVgrad`
-    src/function/penalty.cpp:81-96     linear_penalty_function_t::do_vgrad                          -> `linearOp`, `linearPenalty`
-    src/function/penalty.cpp:110-125   quadratic_penalty_function_t::do_vgrad                       -> `quadraticOp`, `quadraticPenalty`
-    src/function/penalty.cpp:127-173   augmented_lagrangian_function_t (ctor asserts + do_vgrad)    -> `alVgrad`, `augLagrangian`
-    src/solver/state.cpp:93-115        solver_state_t::update_constraints                           -> `evalEq`, `evalIneq`, `mkState`
-    src/solver/state.cpp:262-267       nano::converged(bstate, cstate, epsilon)                     -> `xConverged`
+    src/function/penalty.cpp:30-48     ::penalty_vgrad(function, x, gx, op)                         -> `penaltyVgrad`
+    src/function/penalty.cpp:76-90     linear_penalty_function_t::do_vgrad                          -> `linearOp`, `linearPenalty`
+    src/function/penalty.cpp:104-118   quadratic_penalty_function_t::do_vgrad                       -> `quadraticOp`, `quadraticPenalty`
+    src/function/penalty.cpp:120-165   augmented_lagrangian_function_t (ctor asserts + do_vgrad)    -> `alVgrad`, `augLagrangian`
+    src/solver/state.cpp:95-117        solver_state_t::update_constraints                           -> `evalEq`, `evalIneq`, `mkState`
+    src/solver/state.cpp:258-263       nano::converged(bstate, cstate, epsilon)                     -> `xConverged`
     src/solver/augmented.cpp:9-18      ::make_ro1                                                   -> `makeRo1`
     src/solver/augmented.cpp:20-25     ::make_criterion                                             -> `criterion`
-    src/solver/augmented.cpp:62-110    solver_augmented_lagrangian_t::do_minimize (outer loop)      -> `alInit`, `alStep`, `alLoop`
+    src/solver/augmented.cpp:51-111    solver_augmented_lagrangian_t::do_minimize (outer loop)      -> `alInit`, `alStep`, `alLoop`
     src/solver.cpp:119-138             solver_t::done (status decision)                             -> inside `alStep`
 
   The objective function and the inner solver are oracles: the penalties take the objective's value and gradient at the
@@ -39,7 +39,7 @@ def evalC (x : List α) (c : C α) : Eval α :=
 /-- `gx += s * gc` (element-wise; a no-op on the empty gradient of a value-only call) -/
 def axpy (s : α) (gc gx : List α) : List α := List.zipWith (fun g c => g + s * c) gx gc
 
-/-- `penalty_vgrad` (penalty.cpp:31-50): starting from the objective's value and gradient, every equality and
+/-- `penalty_vgrad` (penalty.cpp:30-48): starting from the objective's value and gradient, every equality and
     every violated inequality (`fc > 0`) contributes `op(fc, gc)`; `op` returns the value increment and the
     updated gradient -/
 def penaltyVgrad (op : α → List α → List α → α × List α) (fx : α) (gx : List α) : List (Eval α) → α × List α
@@ -50,12 +50,12 @@ def penaltyVgrad (op : α → List α → List α → α × List α) (fx : α) (
       penaltyVgrad op (fx + r.1) r.2 es
     else penaltyVgrad op fx gx es
 
-/-- the lambda of `linear_penalty_function_t::do_vgrad` (penalty.cpp:85-93):
+/-- the lambda of `linear_penalty_function_t::do_vgrad` (penalty.cpp:80-87):
     `gx += penalty * (fc >= 0 ? +1 : -1) * gc; return penalty * fabs(fc)` -/
 def linearOp (c : α) (fc : α) (gc gx : List α) : α × List α :=
   (c * absv fc, axpy (c * (if 0 ≤ fc then 1 else -1)) gc gx)
 
-/-- the lambda of `quadratic_penalty_function_t::do_vgrad` (penalty.cpp:114-122):
+/-- the lambda of `quadratic_penalty_function_t::do_vgrad` (penalty.cpp:108-115):
     `gx += penalty * 2 * fc * gc; return penalty * fc * fc` -/
 def quadraticOp (c : α) (fc : α) (gc gx : List α) : α × List α :=
   (c * fc * fc, axpy (c * 2 * fc) gc gx)
@@ -68,9 +68,9 @@ def linearPenalty (c : α) (f : α × List α) (es : List (Eval α)) : α × Lis
 def quadraticPenalty (c : α) (f : α × List α) (es : List (Eval α)) : α × List α :=
   penaltyVgrad (quadraticOp c) f.1 f.2 es
 
-/-- the loop of `augmented_lagrangian_function_t::do_vgrad` (penalty.cpp:149-170): equalities consume `lambda`,
+/-- the loop of `augmented_lagrangian_function_t::do_vgrad` (penalty.cpp:142-164): equalities consume `lambda`,
     inequalities consume `miu`; `none` where the constructor's asserts
-    `m_lambda.size() == count_equalities`, `m_miu.size() == count_inequalities` (penalty.cpp:133-134) fail -/
+    `m_lambda.size() == count_equalities`, `m_miu.size() == count_inequalities` (penalty.cpp:126-127) fail -/
 def alVgrad (ro : α) : List α → List α → α → List α → List (Eval α) → Option (α × List α)
   | [], [], fx, gx, [] => some (fx, gx)
   | _, _, _, _, [] => none
@@ -113,7 +113,7 @@ structure St (α : Type) where
   ceq : List α
   cineq : List α
 
-/-- `m_ceq` after `solver_state_t::update_constraints` (state.cpp:93-115): the values of the equalities, in order -/
+/-- `m_ceq` after `solver_state_t::update_constraints` (state.cpp:95-117): the values of the equalities, in order -/
 def evalEq (cs : List (C α)) (x : List α) : List α := (cs.filter C.isEq).map (fun c => (c.vgrad x).1)
 
 /-- `m_cineq` after `update_constraints`: the values of the inequalities, in order -/
@@ -134,11 +134,11 @@ def criterion (c : St α) (miu : List α) (ro : α) : α :=
   cmax (maxL (c.ceq.map absv)) (maxL (List.zipWith (fun g m => absv (cmax g (-m / ro))) c.cineq miu))
 
 /-- the feasibility residual of the property statement: `max(max_j |h_j|, max_i max(0, g_i))`
-    (= `max(kkt_optimality_test2, kkt_optimality_test1)`, state.cpp:222-230) -/
+    (= `max(kkt_optimality_test2, kkt_optimality_test1)`, state.cpp:214-222) -/
 def violation (c : St α) : α :=
   cmax (maxL (c.ceq.map absv)) (maxL (c.cineq.map (fun g => cmax g 0)))
 
-/-- `nano::converged(bstate, cstate, epsilon)` (state.cpp:262-267) -/
+/-- `nano::converged(bstate, cstate, epsilon)` (state.cpp:258-263) -/
 def xConverged (bx cx : List α) (eps : α) : Bool :=
   decide (maxL ((vsub cx bx).map absv) < eps * cmax 1 (maxL (bx.map absv)))
 
@@ -168,7 +168,7 @@ structure Answer (α : Type) where
   iterOk : Bool
   bvalid : Bool
 
-/-- the parameters of the solver read at augmented.cpp:52-60 -/
+/-- the parameters of the solver read at augmented.cpp:54-62 -/
 structure Params (α : Type) where
   eps : α
   tau : α
@@ -177,15 +177,15 @@ structure Params (α : Type) where
   lambdaMin : α
   lambdaMax : α
 
-/-- `converged` of augmented.cpp:79 -/
+/-- `converged` of augmented.cpp:82 -/
 def alConverged (p : Params α) (s : ALState α) (a : Answer α) : Bool :=
   a.iterOk && decide (criterion a.cstate s.miu s.ro ≤ p.eps) && xConverged s.best.x a.cstate.x p.eps
 
-/-- the guard of the best-state update (augmented.cpp:83) -/
+/-- the guard of the best-state update (augmented.cpp:86) -/
 def alImproved (s : ALState α) (a : Answer α) : Bool :=
   a.iterOk && decide (criterion a.cstate s.miu s.ro < s.oldCrit)
 
-/-- one iteration of the outer loop (augmented.cpp:72-104) given the oracle's answer; the flag says whether the
+/-- one iteration of the outer loop (augmented.cpp:72-107) given the oracle's answer; the flag says whether the
     loop stops (`done(...)` returned true) -/
 def alStep (cs : List (C α)) (p : Params α) (s : ALState α) (a : Answer α) : ALState α × Bool :=
   let c := a.cstate
@@ -212,7 +212,7 @@ def alLoop (cs : List (C α)) (p : Params α) (inner : Nat → ALState α → An
     let r := alStep cs p s (inner s.iters s)
     if r.2 then r.1 else alLoop cs p inner fuel r.1
 
-/-- the variables before the loop (augmented.cpp:62-66); `ro1` = `make_ro1(bstate)` -/
+/-- the variables before the loop (augmented.cpp:64-68); `ro1` = `make_ro1(bstate)` -/
 def alInit (cs : List (C α)) (x0 : List α) (ro1 : α) : ALState α :=
   let b := mkState cs x0
   let miu := b.cineq.map (fun _ => (0 : α))
